@@ -388,4 +388,4 @@ def st_case(draw):
             "dtype": dtype, "use_defaults": use_defaults, "prior": prior, "prior2": prior2}
 
 
-PARTS = [Part("poisson", check_case, {"quick": 400, "thorough": 8000}, strategy=st_case)]
+PARTS = [Part("poisson", check_case, {"quick": 1200, "thorough": 8000}, strategy=st_case)]
